@@ -55,7 +55,7 @@ Qed.
 Definition nonempty (s : slot) : Prop := s_state s <> HDB_STATE_EMPTY.
 
 Definition slot_ok (n : Z) (s : slot) : Prop :=
-  s = zero_slot \/
+  s_state s = HDB_STATE_EMPTY \/
   ((s_state s = HDB_STATE_ACTIVE \/ s_state s = HDB_STATE_PENDINGREMOVAL) /\ 1 <= s_ref s /\ 1 <= s_inst s < n).
 
 Record Inv (d : hdb) : Prop := {
@@ -74,10 +74,10 @@ Proof. unfold nonempty, zero_slot; simpl. rewrite st_empty_zero. tauto. Qed.
 
 Lemma slot_ok_nonempty n s : slot_ok n s -> nonempty s ->
   (s_state s = HDB_STATE_ACTIVE \/ s_state s = HDB_STATE_PENDINGREMOVAL) /\ 1 <= s_ref s /\ 1 <= s_inst s < n.
-Proof. intros [->|H] Hn; auto. exfalso; apply zero_slot_empty; auto. Qed.
+Proof. intros [He|H] Hn; auto. exfalso; apply Hn; auto. Qed.
 
 Lemma slot_ok_mono n m s : n <= m -> slot_ok n s -> slot_ok m s.
-Proof. intros Hle [->|(Hs & Hr & Hi)]; [left; auto| right; repeat split; auto; lia]. Qed.
+Proof. intros Hle [He|(Hs & Hr & Hi)]; [left; auto| right; repeat split; auto; lia]. Qed.
 
 Lemma inv_init : Inv hdb_init.
 Proof.
@@ -157,7 +157,7 @@ Proof.
   constructor; simpl.
   - intros j t Hj. rewrite nth_upd in Hj.
     destruct (Nat.eqb_spec i j); rewrite ?Hlt' in *.
-    + inversion Hj; subst. left; auto.
+    + inversion Hj; subst. left; reflexivity.
     + eapply (inv_slots d I); eauto.
   - intros a b sa sb Ha Hb Hna Hnb Heq. rewrite nth_upd in Ha, Hb.
     destruct (Nat.eqb_spec i a); destruct (Nat.eqb_spec i b); rewrite ?Hlt' in *; subst; auto.
@@ -322,6 +322,67 @@ Proof.
   right; simpl; repeat split; auto; lia.
 Qed.
 
+(* replacing an EMPTY slot by an EMPTY slot / appending an EMPTY slot *)
+Lemma inv_set_empty d i s s' :
+  Inv d -> nth_error (slots d) i = Some s -> ~ nonempty s -> ~ nonempty s' ->
+  Inv {| slots := upd (slots d) i s'; iter := iter d; next_inst := next_inst d; dlog := dlog d |}.
+Proof.
+  intros I Hi Hne Hne'.
+  assert (Hlt : (i < length (slots d))%nat) by (apply nth_error_Some; congruence).
+  assert (Hlt' := Hlt). apply Nat.ltb_lt in Hlt'.
+  constructor; simpl.
+  - intros j t Hj. rewrite nth_upd in Hj.
+    destruct (Nat.eqb_spec i j); rewrite ?Hlt' in *.
+    + inversion Hj; subst. left. unfold nonempty in Hne'. destruct (Z.eq_dec (s_state t) HDB_STATE_EMPTY); tauto.
+    + eapply (inv_slots d I); eauto.
+  - intros a b sa sb Ha Hb Hna Hnb Heq. rewrite nth_upd in Ha, Hb.
+    destruct (Nat.eqb_spec i a); destruct (Nat.eqb_spec i b); rewrite ?Hlt' in *; subst; auto.
+    + inversion Ha; subst sa. contradiction.
+    + inversion Hb; subst sb. contradiction.
+    + eapply (inv_uniq d I); eauto.
+  - intros j t Hj Hnt. rewrite nth_upd in Hj.
+    destruct (Nat.eqb_spec i j); rewrite ?Hlt' in *.
+    + inversion Hj; subst t. contradiction.
+    + eapply (inv_live_not_dead d I); eauto.
+  - apply (inv_dlog_nodup d I).
+  - apply (inv_dlog_range d I).
+  - rewrite upd_length. apply (inv_len d I).
+  - apply (inv_next d I).
+Qed.
+
+Lemma inv_append_empty d :
+  Inv d -> Z.of_nat (length (slots d)) + 1 <= HDB_ARRAY_MAX_ELEMENTS ->
+  Inv {| slots := slots d ++ [zero_slot]; iter := iter d; next_inst := next_inst d; dlog := dlog d |}.
+Proof.
+  intros I Hmax.
+  constructor; simpl.
+  - intros j t Hj. rewrite nth_app_new in Hj. destruct (Nat.eqb_spec j (length (slots d))).
+    + inversion Hj; subst. left; reflexivity.
+    + eapply (inv_slots d I); eauto.
+  - intros a b sa sb Ha Hb Hna Hnb Heq. rewrite nth_app_new in Ha, Hb.
+    destruct (Nat.eqb_spec a (length (slots d))); destruct (Nat.eqb_spec b (length (slots d))); subst; auto.
+    + inversion Ha; subst sa. exfalso; apply zero_slot_empty; auto.
+    + inversion Hb; subst sb. exfalso; apply zero_slot_empty; auto.
+    + eapply (inv_uniq d I); eauto.
+  - intros j t Hj Hnt. rewrite nth_app_new in Hj. destruct (Nat.eqb_spec j (length (slots d))).
+    + inversion Hj; subst t. exfalso; apply zero_slot_empty; auto.
+    + eapply (inv_live_not_dead d I); eauto.
+  - apply (inv_dlog_nodup d I).
+  - apply (inv_dlog_range d I).
+  - rewrite app_length; simpl. lia.
+  - apply (inv_next d I).
+Qed.
+
+Lemma inv_create_fail d : Inv d -> Inv (fst (do_create_fail d)).
+Proof.
+  intros I. unfold do_create_fail.
+  destruct (find_empty (slots d) 0) as [i|] eqn:E.
+  - apply find_empty_spec in E. destruct E as (H0 & s & Hn & Hs). rewrite Z.sub_0_r in Hn.
+    rewrite Hn. simpl. apply (inv_set_empty d _ s); auto; unfold nonempty; simpl; tauto.
+  - destruct (HDB_ARRAY_MAX_ELEMENTS <? handle_count d + 1) eqn:Em; simpl; auto.
+    apply Z.ltb_ge in Em. apply inv_append_empty; auto.
+Qed.
+
 Lemma inv_create d chk : Inv d -> Inv (fst (do_create d chk)).
 Proof.
   intros I. unfold do_create.
@@ -351,6 +412,7 @@ Theorem inv_step d o : Inv d -> Inv (fst (step d o)).
 Proof.
   intros I. destruct o; unfold step.
   - apply inv_create; auto.
+  - apply inv_create_fail; auto.
   - pose proof (inv_get d h I). destruct (do_get d h) as [[d' r] inst]; auto.
   - pose proof (inv_put d h I). destruct (do_put d h); auto.
   - pose proof (inv_destroy d h I). destruct (do_destroy d h); auto.
